@@ -1,10 +1,13 @@
 #!/bin/bash
 # Runs every claimed quick (or thorough) check in turn against /repo and prints one line per property.
-# usage: tools/run_all.sh [quick|thorough]
+# usage: tools/run_all.sh [quick|thorough] [ID ...]   (default: every claimed check)
 cd "$(dirname "$0")/.."
 TIER=${1:-quick}
+shift || true
+IDS="$*"
+[ -z "$IDS" ] && IDS=$(python3 -c "import json;print(' '.join(c['property_id'] for c in json.load(open('MANIFEST.json'))['checks']))")
 rc=0
-for id in $(python3 -c "import json;print(' '.join(c['property_id'] for c in json.load(open('MANIFEST.json'))['checks']))"); do
+for id in $IDS; do
   t0=$(date +%s)
   out=$(./check $id --tier $TIER 2>&1)
   e=$?
